@@ -800,8 +800,9 @@ def check_jsonld_reader(cx: Cx, ob: Ob) -> None:
                 ob.site(f"{where(m, ev.line)} {m.qualname}", f"store {show(ev.a[2])} := {show(ev.b)[:30]}")
                 if ev.a[2] != k:
                     report("store-key", ev.line, "from_jsonld stores under something other than the term key")
-                if ev.b == v:
-                    seen_str = True
+                str_of_str = ev.b == ("call", ("builtin", "str"), (v,), ()) and any(g.kind == "guard" and g.b is True and op(g.a) == "call" and g.a[1] == ("builtin", "isinstance") and g.a[2][:1] == (v,) and show(g.a[2][1]).rsplit(".", 1)[-1] == "str" for g in p.events)
+                if ev.b == v or str_of_str:
+                    seen_str = True  # str(v) of a value that IS a str (also of a str subclass such as URIRef) is that string
                 elif ev.b == ("item", v, ("const", "@id")):
                     seen_dict = True
                 else:
